@@ -42,7 +42,7 @@ def cases(rng, tier):
                     p = hostile.hostile_packet(rng)
                 else:
                     q = rng.choice(pC13.NAMES + [SVC, ME])
-                    p = pC13.query_pkt(rng.below(65536), [{"name": q, "qtype": rng.choice([1, 255, 33, 16, 12]), "qclass": rng.choice([1, 255]), "uni": rng.chance(1, 3)}])
+                    p = pC13.query_pkt(rng.below(65536), [{"name": q, "qtype": rng.choice([1, 28, 255, 33, 16, 12, 257]), "qclass": rng.choice([1, 255]), "uni": rng.chance(1, 3)}])
                     if rng.chance(1, 4):
                         # a query carrying known answers (RFC 6762 7.1): copies of registered records, any TTL
                         ka = rng.choice(P)
@@ -78,6 +78,18 @@ def cases(rng, tier):
             toks += ["D"] + dns.name_toks(SVC) + dns.name_toks(ME) + [d.hex() or "-"]
         toks += ["K"] + dns.name_toks(SVC)
         out.append("STORE " + " ".join(toks))
+    # directed: a host with one address family and a record type above 255, asked for the other family and for everything
+    hi = [r for r in P if r["rdata"][0] == "U" or (r["rdata"][0] == "T" and r["rdata"][1] == "CAA")]
+    for extra in hi:
+        host = extra["name"]
+        for fam in ("A", "AAAA"):
+            toks = ["AA"] + dns.rr_toks({"name": host, "class": 1, "ttl": 120, "cf": False, "rdata": ("T", fam, [("I", 7)])}) + ["AA"] + dns.rr_toks(extra)
+            toks += ["AA"] + dns.rr_toks({"name": SVC, "class": 1, "ttl": 120, "cf": False, "rdata": ("T", "PTR", [("N", ME)])})
+            for qt in (1, 28, 255, 257, 65280):
+                q = pC13.query_pkt(3, [{"name": host, "qtype": qt, "qclass": 1, "uni": False}])
+                b, _ = dns.encode_marked(q, rng, 0)
+                toks += ["D"] + dns.name_toks(SVC) + dns.name_toks(ME) + [b.hex()]
+            out.append("STORE " + " ".join(toks))
     # replies larger than 16 KiB: a store of address records under one service whose sorted order puts a two-new-label name
     # at offset 16384 - k, followed by a name sharing only its later suffix
     base = [b"_s", b"_tcp", b"local"]
